@@ -76,12 +76,11 @@ var analysedDirs = []string{
 
 // higher-order callees that run their function argument synchronously on the caller's goroutine
 var syncCallees = map[string]bool{
-	"sync.Map.Range":            true,
-	"event.LocalECList.Range":   true,
-	"sort.Slice":                true,
-	"sort.SliceStable":          true,
-	"strings.Map":               true,
-	"strings.FieldsFunc":        true,
+	"sync.Map.Range":                    true,
+	"sort.Slice":                        true,
+	"sort.SliceStable":                  true,
+	"strings.Map":                       true,
+	"strings.FieldsFunc":                true,
 	"impls.ClientSessions.VisitSession": true,
 }
 
@@ -214,19 +213,19 @@ type edge struct {
 }
 
 type graph struct {
-	nodes    []*node
-	byName   map[string]*node
-	calls    map[edge]bool
-	sites    map[site]bool
-	goRoots  map[[2]string]bool // (root node name, spawner)
-	tmRoots  map[int]bool
-	lits     map[[2]string]bool // (node name, kind)
-	parents  map[[2]int]bool    // (literal node, node that creates it)
-	sends    map[site]bool
-	extPkgs  map[string]bool
-	foreign  int
-	facts    map[string]bool
-	pending  []pendingEdge
+	nodes   []*node
+	byName  map[string]*node
+	calls   map[edge]bool
+	sites   map[site]bool
+	goRoots map[[2]string]bool // (root node name, spawner)
+	tmRoots map[int]bool
+	lits    map[[2]string]bool // (node name, kind)
+	parents map[[2]int]bool    // (literal node, node that creates it)
+	sends   map[site]bool
+	extPkgs map[string]bool
+	foreign int
+	facts   map[string]bool
+	pending []pendingEdge
 }
 
 type pendingEdge struct {
@@ -579,9 +578,14 @@ func (w *walker) call(c ctx, call *ast.CallExpr, how string) {
 		}
 	}
 	// arguments
-	for _, a := range call.Args {
+	for ai, a := range call.Args {
+		// a wrapper that only forwards its function parameter (`func (s *T) onOwner(f func()) { s.sche.Post(f) }`)
+		// or only calls it is looked through: the literal is classified by what finally receives it
+		calleeName := resolveSink(calleeName, ai, 0)
 		kind, sem := "arg:"+calleeName, "unknown"
 		switch {
+		case strings.HasPrefix(calleeName, "calls:"):
+			kind, sem = "sync:"+strings.TrimPrefix(calleeName, "calls:"), "sync"
 		case timerCallees[calleeName]:
 			kind, sem = "timer:"+calleeName, "timer"
 		case syncCallees[calleeName]:
@@ -593,6 +597,126 @@ func (w *walker) call(c ctx, call *ast.CallExpr, how string) {
 		}
 		if !w.useFunc(c, a, kind, sem) {
 			w.expr(c, a)
+		}
+	}
+}
+
+// paramFlow[function][parameter index] = what an analysed function does with a func-typed parameter:
+// {"fwd", callee, index} it only hands it on to one callee; {"call"} it only calls it; {"other"}.
+type flow struct {
+	kind string
+	to   string
+	idx  int
+}
+
+var paramFlow = map[string]map[int]flow{}
+
+func resolveSink(callee string, idx, depth int) string {
+	if depth > 8 {
+		return callee
+	}
+	fl, ok := paramFlow[callee][idx]
+	if !ok {
+		return callee
+	}
+	switch fl.kind {
+	case "fwd":
+		return resolveSink(fl.to, fl.idx, depth+1)
+	case "call":
+		return "calls:" + callee
+	}
+	return callee
+}
+
+// summarise computes paramFlow for one function declaration.
+func summarise(info *types.Info, fd *ast.FuncDecl, name string) {
+	if fd.Body == nil || fd.Type.Params == nil {
+		return
+	}
+	params := map[types.Object]int{}
+	i := 0
+	for _, fld := range fd.Type.Params.List {
+		if len(fld.Names) == 0 {
+			i++
+			continue
+		}
+		for _, nm := range fld.Names {
+			if obj := info.Defs[nm]; obj != nil {
+				if _, isFn := obj.Type().Underlying().(*types.Signature); isFn {
+					params[obj] = i
+				}
+			}
+			i++
+		}
+	}
+	if len(params) == 0 {
+		return
+	}
+	uses := map[int][]flow{}
+	var stack []ast.Node
+	ast.Inspect(fd.Body, func(n ast.Node) bool {
+		if n == nil {
+			stack = stack[:len(stack)-1]
+			return true
+		}
+		stack = append(stack, n)
+		id, ok := n.(*ast.Ident)
+		if !ok {
+			return true
+		}
+		pi, isParam := params[info.Uses[id]]
+		if !isParam {
+			return true
+		}
+		inLit := false
+		for _, a := range stack {
+			if _, ok := a.(*ast.FuncLit); ok {
+				inLit = true
+			}
+		}
+		f := flow{kind: "other"}
+		if len(stack) >= 2 && !inLit {
+			if call, ok := stack[len(stack)-2].(*ast.CallExpr); ok {
+				if unparen(call.Fun) == ast.Expr(id) {
+					f = flow{kind: "call"}
+				} else {
+					for j, a := range call.Args {
+						if unparen(a) == ast.Expr(id) {
+							var callee *types.Func
+							switch x := unparen(call.Fun).(type) {
+							case *ast.Ident:
+								callee, _ = info.Uses[x].(*types.Func)
+							case *ast.SelectorExpr:
+								callee, _ = info.Uses[x.Sel].(*types.Func)
+								if s := info.Selections[x]; s != nil {
+									if _, isIface := s.Recv().Underlying().(*types.Interface); isIface {
+										callee = nil
+									}
+								}
+							}
+							if callee != nil {
+								f = flow{kind: "fwd", to: funcName(callee), idx: j}
+							}
+						}
+					}
+				}
+			}
+		}
+		uses[pi] = append(uses[pi], f)
+		return true
+	})
+	for pi, fs := range uses {
+		res := fs[0]
+		for _, f := range fs[1:] {
+			if f != res {
+				res = flow{kind: "other"}
+			}
+		}
+		if res.kind != "other" {
+			if paramFlow[name] == nil {
+				paramFlow[name] = map[int]flow{}
+			}
+			paramFlow[name][pi] = res
 		}
 	}
 }
@@ -613,7 +737,7 @@ func (w *walker) expr(c ctx, e ast.Expr) {
 	ast.Inspect(e, func(n ast.Node) bool {
 		switch x := n.(type) {
 		case *ast.CallExpr:
-					w.call(c, x, "call")
+			w.call(c, x, "call")
 			return false
 		case *ast.FuncLit:
 			w.useFunc(c, x, "stored", "unknown")
@@ -885,6 +1009,7 @@ func main() {
 					continue
 				}
 				n := g.node(funcName(obj))
+				summarise(ld.info, fd, funcName(obj))
 				n.exported = ast.IsExported(fd.Name.Name)
 				p := fset.Position(fd.Pos())
 				n.pos = fmt.Sprintf("%s:%d", filepath.Base(p.Filename), p.Line)
